@@ -30,6 +30,10 @@ def violations(rng, max_msg):
         ("continuation-without-start", wire.ws_frame(0, b"tail", mask=m), {P1002}),
         ("new-data-frame-inside-fragmented-message", wire.ws_frame(1, b'{"id"', fin=0, mask=m) + wire.ws_frame(1, js, mask=m), None),
     ]
+    # close reasons of every short length that are not UTF-8 (1 byte: stray continuation / C0 / truncated lead / F5.. / FF)
+    for i, bad in enumerate([b"\x80", b"\xbf", b"\xc0", b"\xc2", b"\xe2", b"\xf4", b"\xf5", b"\xff", b"a\x80", b"\xe2\x82", b"\xed\xa0\x80",
+                             b"\xf4\x90\x80\x80", b"ok\xc2", b"x" * 120 + b"\xf0\x9f\x98"]):
+        out.append(("close-bad-utf8-reason-%dbytes-%d" % (len(bad), i), wire.ws_frame(8, struct.pack(">H", rng.choice([1000, 1001, 3000])) + bad, mask=m), {P1007}))
     for r in (1, 2, 3, 4, 5, 6, 7):
         out.append(("rsv-%d-text" % r, wire.ws_frame(1, js, rsv=r, mask=m), {P1002}))
     for r in (1, 4, 7):
